@@ -129,11 +129,12 @@ func (r *Remote) Start(e *actor.Engine) error {
 
 // Stop will stop the remote from listening.
 func (r *Remote) Stop() *sync.WaitGroup {
-	if r.state.Load() != stateRunning {
+	// only one caller may take the remote from running to stopped: a second
+	// one would block forever sending on stopCh, which is received once.
+	if !r.state.CompareAndSwap(stateRunning, stateStopped) {
 		slog.Warn("remote already stopped but stop was called", "state", r.state.Load())
 		return &sync.WaitGroup{} // return empty waitgroup so the caller can still wait without panicking.
 	}
-	r.state.Store(stateStopped)
 	r.stopCh <- struct{}{}
 	return r.stopWg
 }
